@@ -37,7 +37,8 @@ theorem decode_step (hb : B64RoundTrip) (c : Ctx) (e : Env) (V : List Byte) (len
     ∃ out V', (decode c e len).2.2 = (if out = [] then Res.again else Res.data out) ∧
       out.length ≤ len ∧ V = out ++ V' ∧
       Inv (decode c e len).1 (decode c e len).2.1.pending V' ∧
-      (decode c e len).2.1.FaultFree ∧ (decode c e len).2.1.Safe := by
+      (decode c e len).2.1.FaultFree ∧ (decode c e len).2.1.Safe ∧
+      (out ≠ [] ∨ (decode c e len).2.1.pending.length < e.pending.length ∨ e.Stuck) := by
   generalize hp : e.pending = p at hinv
   cases hinv with
   | done opc fin pl co =>
@@ -56,10 +57,10 @@ theorem decode_step (hb : B64RoundTrip) (c : Ctx) (e : Env) (V : List Byte) (len
         simp only at ho; subst ho; rfl
       · rw [hp] at htl; simp at htl; omega
     have hpe : (e.read 0 6).2.pending = [] := by
-      rcases hc1 with ⟨_, h⟩ | ⟨t, ht0, _, htl, _, _⟩
+      rcases hc1 with ⟨_, h, _⟩ | ⟨t, ht0, _, htl, _, _⟩
       · rw [h, hp]
       · rw [hp] at htl; simp at htl; omega
-    refine ⟨[], [], ?_, by simp, by simp, ?_, ?_, ?_⟩ <;>
+    refine ⟨[], [], ?_, by simp, by simp, ?_, ?_, ?_, Or.inr (Or.inr (Or.inr hp))⟩ <;>
       simp only [decode, show (ctxAtHeader [] opc fin pl co).st = St.headerPending from rfl, hrd]
     · simp
     · simp [spor, ctxAtHeader, hpe]; exact Inv.done opc fin pl co
@@ -70,9 +71,9 @@ theorem decode_step (hb : B64RoundTrip) (c : Ctx) (e : Env) (V : List Byte) (len
     obtain ⟨e', hff', hs', hcs⟩ := readHeader_cases f fs co co' j opc fin pl e
       (xorMask f.mask f.payload ++ wireOf fs) hok hj hco hp hff hs
     have hst0 : (ctxAtHeader (f.header.take j) opc fin pl co').st = St.headerPending := rfl
-    rcases hcs with ⟨j', opc', fin', pl', co'', hj', hco'', hrh, hpe⟩ | ⟨hrh, hpe⟩
+    rcases hcs with ⟨j', opc', fin', pl', co'', hj', hco'', hrh, hpe, hprog⟩ | ⟨hrh, hpe⟩
     · -- header still incomplete
-      refine ⟨[], expected co (f :: fs), ?_, by simp, by simp, ?_, ?_, ?_⟩ <;>
+      refine ⟨[], expected co (f :: fs), ?_, by simp, by simp, ?_, ?_, ?_, ?_⟩ <;>
         simp only [decode, hst0, hrh]
       · simp
       · have : spor { ctxAtHeader (f.header.take j') opc' fin' pl' co'' with st := St.headerPending } =
@@ -82,34 +83,50 @@ theorem decode_step (hb : B64RoundTrip) (c : Ctx) (e : Env) (V : List Byte) (len
         exact Inv.header f fs co co'' j' opc' fin' pl' hv hj' hco''
       · simpa using hff'
       · simpa using hs'
+      · simp only [reduceCtorEq, if_false, ne_eq, not_true_eq_false]
+        rcases hprog with h | h
+        · exact Or.inr (Or.inr h)
+        · refine Or.inr (Or.inl ?_)
+          rw [hpe]
+          simp only [List.length_append, List.length_drop]
+          omega
     · -- header complete: go on with the payload in the same call
       have hc1 : { ctxInFrame f co 0 [] [] (some f.header.length) St.headerPending with st := St.dataNeeded } =
           ctxInFrame f co 0 [] [] (some f.header.length) St.dataNeeded := rfl
-      obtain ⟨d, hd, hdff, hds, out, V', h1, h2, h3, h4⟩ :=
+      obtain ⟨d, hd, hdff, hds, out, V', h1, h2, h3, h4, h5, _⟩ :=
         readAndDecode_frame hb f fs co 0 [] f.payload (f.out co) (some f.header.length) e' len hv
           (by omega) (by simp) (by simp) (fun _ => rfl) (by simpa using Rem_out hb f co hok) hlen
           (by rw [hpe]; simp [xorMask]) hff' hs'
-      refine ⟨out, V', ?_, h2, by simpa [expected] using h3, ?_, ?_, ?_⟩ <;>
+      refine ⟨out, V', ?_, h2, by simpa [expected] using h3, ?_, ?_, ?_, ?_⟩ <;>
         simp only [decode, hst0, hrh, reduceCtorEq, if_false, ne_eq, not_false_eq_true, if_true, hc1, hd]
       · exact h1
       · exact h4
       · exact hdff
       · exact hds
+      · refine Or.inr (Or.inl ?_)
+        rw [hpe] at h5
+        simp only [List.length_append, List.length_drop] at h5 ⊢
+        omega
   | frame f fs co a cu rest rd Vf rp st hv ha hcu hP hce hrem hcase =>
     have hok := hv.1
     have hPlt : f.payload.length < 2 ^ 64 := hok.1
     rcases hcase with ⟨hrd, hst, hrne⟩ | ⟨hrd, hst, hrp⟩
     · -- more payload needed
       subst hrd; subst hst
-      obtain ⟨d, hd, hdff, hds, out, V', h1, h2, h3, h4⟩ :=
+      obtain ⟨d, hd, hdff, hds, out, V', h1, h2, h3, h4, _, h6⟩ :=
         readAndDecode_frame hb f fs co a cu rest Vf rp e len hv (ha hrne) hcu hP hce hrem hlen hp hff hs
       have hst0 : (ctxInFrame f co a cu [] rp St.dataNeeded).st = St.dataNeeded := rfl
-      refine ⟨out, V', ?_, h2, by simpa using h3, ?_, ?_, ?_⟩ <;>
+      refine ⟨out, V', ?_, h2, by simpa using h3, ?_, ?_, ?_, ?_⟩ <;>
         simp only [decode, hst0, hd]
       · exact h1
       · exact h4
       · exact hdff
       · exact hds
+      · rcases h6 with h | h | h | h
+        · exact Or.inl h
+        · exact Or.inr (Or.inl (hp ▸ h))
+        · exact Or.inr (Or.inr h)
+        · exact absurd h hrne
     · -- decoded bytes are waiting in the buffer
       subst hst
       obtain ⟨rpv, rfl⟩ := Option.isSome_iff_exists.mp hrp
@@ -140,7 +157,8 @@ theorem decode_step (hb : B64RoundTrip) (c : Ctx) (e : Env) (V : List Byte) (len
           simp only [decode, hst0, hret, ctxF_set_st]
           rw [spor_ctxF_other _ _ _ (by decide) (by decide)]
         rw [hdec]
-        refine ⟨rd.take len, rd.drop len ++ (Vf ++ expected (f.afterCo co) fs), by simp [htne], ?_, ?_, ?_, hff, hs⟩
+        refine ⟨rd.take len, rd.drop len ++ (Vf ++ expected (f.afterCo co) fs), by simp [htne], ?_, ?_, ?_, hff, hs,
+          Or.inl htne⟩
         · simp only [List.length_take]; omega
         · rw [← List.append_assoc (rd.take len), List.take_append_drop]
         · simp only [hp]
@@ -153,7 +171,7 @@ theorem decode_step (hb : B64RoundTrip) (c : Ctx) (e : Env) (V : List Byte) (len
               (a + cu.length) (xorFrom f.mask a cu) (some (wpOf f co a)) none 0 []), e, .data rd) := by
           simp only [decode, hst0, hret, ctxF_set_st]
         rw [hdec]
-        refine ⟨rd, Vf ++ expected (f.afterCo co) fs, by simp [hrd], by omega, rfl, ?_, hff, hs⟩
+        refine ⟨rd, Vf ++ expected (f.afterCo co) fs, by simp [hrd], by omega, rfl, ?_, hff, hs, Or.inl hrd⟩
         simp only [hp]
         by_cases hc : rest = []
         · have hcu0 := hce hc
@@ -210,7 +228,7 @@ theorem run_inv (hb : B64RoundTrip) (lens : List Nat) (hl : ∀ l ∈ lens, 0 < 
   induction lens generalizing c e V with
   | nil => exact ⟨by simp [run], V, by simp [run, delivered], hinv, hff, hs⟩
   | cons len ls ih =>
-    obtain ⟨out, V1, h1, _, h3, h4, h5, h6⟩ :=
+    obtain ⟨out, V1, h1, _, h3, h4, h5, h6, _⟩ :=
       decode_step hb c e V len hinv hff hs (hl len (by simp))
     obtain ⟨ih1, V2, ih2, ih3, ih4, ih5⟩ :=
       ih (fun l hl' => hl l (by simp [hl'])) (decode c e len).1 (decode c e len).2.1 V1 h4 h5 h6
